@@ -700,7 +700,11 @@ func (self *LockManager) CheckLockedEqual(lock *Lock, command *protocol.LockComm
 		}
 		return lock.expriedTime-expriedTime <= 1 && self.checkLockedCountEqual(lock, command)
 	}
-	return self.checkLockedCountEqual(lock, command)
+	expriedTime := self.lockDb.currentTime + int64(command.Expried)/1000 + 1
+	if expriedTime > lock.expriedTime {
+		return expriedTime-lock.expriedTime <= 1 && self.checkLockedCountEqual(lock, command)
+	}
+	return lock.expriedTime-expriedTime <= 1 && self.checkLockedCountEqual(lock, command)
 }
 
 func (self *LockManager) checkLockedCountEqual(lock *Lock, command *protocol.LockCommand) bool {
